@@ -428,6 +428,12 @@ class DNSIncoming:
                 )
             linked_labels = self._name_cache.get(link_py_int)
             if not linked_labels:
+                if len(seen_pointers) >= MAX_DNS_LABELS:
+                    # Every hop of a pointer chain recurses once: bound the chain
+                    # so a crafted packet cannot exhaust the interpreter stack
+                    raise IncomingDecodeError(
+                        f"Maximum dns compression pointers reached while processing pointer at {off} from {self.source}"
+                    )
                 linked_labels = []
                 seen_pointers.add(link_py_int)
                 self._decode_labels_at_offset(link, linked_labels, seen_pointers)
